@@ -14,7 +14,7 @@ import torch
 
 from rv import trainers as tr
 
-PAIR_TRAINERS = ["STDP", "TripletSTDP", "MSTDP", "MSTDPET"]
+PAIR_TRAINERS = ["STDP", "TripletSTDP", "MSTDP", "MSTDPET", "StableSTDP", "StableTripletSTDP"]
 SIGNS = [(0.8, -0.5), (-0.8, 0.5), (0.8, 0.5), (-0.8, -0.5)]
 
 
@@ -31,7 +31,7 @@ def generate(ctx):
                "signs": sg, "trace_mode": mode}
     # (b) random populations
     for i in range(700 if th else 22):
-        name = PAIR_TRAINERS[i % 4]
+        name = PAIR_TRAINERS[i % len(PAIR_TRAINERS)]
         delay = rng.choice([None, None, 2, 3])
         d = {"part": "random", "trainer": name, "conn": rng.choice(["dense", "direct", "lateral", "conv"]), "dt": rng.choice([1.0, 0.5]),
              "B": rng.randint(1, 3), "T": rng.randint(6, 12), "signs": rng.randrange(4), "trace_mode": rng.choice(["cumulative", "nearest"]),
